@@ -6,6 +6,7 @@ ID = "C06"
 SECTIONS = ["ops", "fitters"]
 LEAN_MODULES = ["QExPy.Props.C06"]
 THEOREMS = ["QExPy.C06_wls_expansion", "QExPy.C06_wls_optimal", "QExPy.C06_wls_unique",
+            "QExPy.C06_vandermonde_posdef", "QExPy.C06_polyfit_characterisation",
             "QExPy.C06_order", "QExPy.C06_poly_design", "QExPy.C06_objective_poly",
             "QExPy.C06_cov_factor", "QExPy.C06_select_mem", "QExPy.C06_select_sublist",
             "QExPy.C06_select_all", "QExPy.C06_grad", "QExPy.C06_stationary_iff",
@@ -54,7 +55,7 @@ def gen_cases(ctx, n):
 
 
 def correspond(ctx):
-    return X.run_c06(ctx, gen_cases(ctx, ctx.n(260, 12000)))
+    return X.run_c06(ctx, gen_cases(ctx, ctx.n(260, 50000)))
 
 
 def search(ctx, broken):
